@@ -96,10 +96,17 @@ func load(r *rt.Runtime) (rt.Value, func()) {
 		r.SetEnvGoFunc(pkg, "lines", iolines, 1, true),
 		r.SetEnvGoFunc(pkg, "open", open, 2, false),
 		r.SetEnvGoFunc(pkg, "output", output, 1, false),
-		r.SetEnvGoFunc(pkg, "popen", popen, 2, false),
 		r.SetEnvGoFunc(pkg, "read", ioread, 0, true),
 		r.SetEnvGoFunc(pkg, "tmpfile", tmpfile, 0, false),
 		r.SetEnvGoFunc(pkg, "write", iowrite, 0, true),
+	)
+
+	// popen starts a process (/bin/sh -c cmd) without going through safeio, so
+	// it must not be callable when IO is disabled: it is not iosafe.
+	rt.SolemnlyDeclareCompliance(
+		rt.ComplyCpuSafe|rt.ComplyMemSafe,
+
+		r.SetEnvGoFunc(pkg, "popen", popen, 2, false),
 	)
 
 	rt.SolemnlyDeclareCompliance(
